@@ -379,6 +379,38 @@ func c20ExecWire(sc c20Wire) (detail string, labels []string) {
 	if sc.Behave == "delay_before" && err != nil && sc.OnlyNth <= 1 && len(spec.cmds) == 1 {
 		return fmt.Sprintf("%s failed (%v) although the node replied at 40%% of the deadline", sc.Op, err), labels
 	}
+	if sc.Behave == "silent" || sc.Behave == "delay_after" || sc.Behave == "drop" {
+		// "a completion that arrives after the deadline neither blocks nor panics": whatever gocbcore delivers late runs
+		// a closure of the wrapper on one of gocbcore's goroutines - it must not be stuck there (seen twice, 120 ms apart)
+		stuck := func() map[string]string {
+			out := map[string]string{}
+			buf := make([]byte, 8<<20)
+			buf = buf[:runtime.Stack(buf, true)]
+			for _, g := range strings.Split(string(buf), "\n\n") {
+				head := strings.SplitN(g, "\n", 2)[0]
+				if !strings.Contains(head, "chan send") && !strings.Contains(head, "chan receive") && !strings.Contains(head, "select") {
+					continue
+				}
+				lines := strings.Split(g, "\n")
+				if len(lines) < 2 || !strings.Contains(lines[1], "github.com/Trendyol/go-dcp/couchbase.") || !strings.Contains(lines[1], ".func") {
+					continue // only goroutines whose innermost frame is a closure of the wrappers
+				}
+				out[strings.Fields(head)[1]] = strings.TrimSpace(lines[1])
+			}
+			return out
+		}
+		time.Sleep(60 * time.Millisecond)
+		if first := stuck(); len(first) > 0 {
+			time.Sleep(120 * time.Millisecond)
+			second := stuck()
+			for id, fr := range first {
+				if second[id] == fr {
+					return fmt.Sprintf("%s (node behaving '%s'): after the call returned, a completion callback of the wrapper is blocked for good on a gocbcore goroutine: %s", sc.Op, sc.Behave, fr), labels
+				}
+			}
+		}
+		labels = append(labels, "late_completion_checked")
+	}
 	return "", labels
 }
 
